@@ -10,6 +10,7 @@ open Htp
 structure PrimState where
   ring : Ring.Ring Nat := Ring.create 1
   table : Table.Table := Table.create 1
+  tableCmp : Nat := 0            -- key comparisons since the last `table cost`
 
 def showOptNat : Option Nat → String
   | some 0 => "null"   -- a stored NULL pointer and "no element" are indistinguishable in C
@@ -59,14 +60,15 @@ def tableOp (s : PrimState) : List String → PrimState × String
       | none => (s, "bad-op")
     | _, _ => (s, "bad-op")
   | ["get", k] => match bytesOfHex k with
-    | some key => (s, showOptNat (Table.get s.table key))
+    | some key => ({ s with tableCmp := s.tableCmp + Table.getCost s.table key }, showOptNat (Table.get s.table key))
     | none => (s, "bad-op")
   | ["getmem", k] => match bytesOfHex k with
-    | some key => (s, showOptNat (Table.get s.table key))
+    | some key => ({ s with tableCmp := s.tableCmp + Table.getCost s.table key }, showOptNat (Table.get s.table key))
     | none => (s, "bad-op")
   | ["getc", k] => match bytesOfHex k with
-    | some key => (s, showOptNat (Table.getC s.table key))
+    | some key => ({ s with tableCmp := s.tableCmp + Table.getCCost s.table key }, showOptNat (Table.getC s.table key))
     | none => (s, "bad-op")
+  | ["cost"] => ({ s with tableCmp := 0 }, toString s.tableCmp)
   | ["getindex", i] => match i.toNat? with
     | some idx => let (k, v) := Table.getIndex s.table idx; (s, s!"{hexOfOpt k} {showOptNat v}")
     | none => (s, "bad-op")
